@@ -34,9 +34,6 @@ def ready_edge(b, timer_field):
 
 def timer_calls(b, field, method):
     return [bb for (bd, bb, t, m) in method_calls_on_field(b._prog, DF + field + "$", bodies=[b]) if m == method]
-    # an expiry that nobody looks at is no time bound at all (shared with C04-b)
-    from .c04 import timer_polls_observed
-    timer_polls_observed(ck, prog, "C06")
 
 
 def run(ck, prog, tier, load):
@@ -180,3 +177,19 @@ def run(ck, prog, tier, load):
         cs = prog.callers(r"^actix_http::config::ServiceConfig::%s$" % fn)
         cs = [c for c in cs if c[0].file.endswith("h1/dispatcher.rs")]
         ck.ob("C06.deadline-from-config", fn, bool(cs), cs[0][0] if cs else None, cs[0][1] if cs else None, "dispatcher deadlines come from ServiceConfig::%s (%d uses)" % (fn, len(cs)), nontrivial=False)
+    # an expiry that nobody looks at is no time bound at all (shared with C04-b)
+    from .c04 import timer_polls_observed
+    timer_polls_observed(ck, prog, "C06")
+    # the keep-alive timer is armed only under KEEP_ALIVE | FINISHED: so the end of EVERY response body must leave
+    # FINISHED set (or have started a close: LINGER / SHUTDOWN); otherwise an idle connection is never timed out
+    presp = disp(prog, "poll_response")
+    eob = [bb for bb, t in presp.calls(r"Codec as tokio_util::codec::encoder::Encoder<.*>>::encode$") if any(is_agg(x, r"Message::Chunk$") and any(is_agg(y, r"Option::None$") for y in walk(x)) for x in walk(presp.op_expr(t["args"][1], 4)))]
+    ck.anchor("C06-ka", len(eob), 2, "end-of-body encode(Message::Chunk(None)) sites in poll_response")
+    marks = blocks_setting_flag(prog, presp, "FINISHED") | blocks_setting_flag(prog, presp, "LINGER") | blocks_setting_flag(prog, presp, "SHUTDOWN")
+    loop_heads = [bb for bb, t in presp.calls(r"VecDeque.*::pop_front$")]
+    for i, e_ in enumerate(sorted(eob)):
+        # from the end of the body to the next dispatch decision (or a return) a mark is passed
+        ends = set(bb for bb, e in presp.ret_exprs() if not (e[0] == "call" and rx(r"from_residual$").search(e[1] or "")) and not is_agg(e, r"Result::Err$")) | set(loop_heads)
+        ok, wit = presp.must_pass_after(e_, ends, marks)
+        ck.ob("C06.finished-marked-at-end-of-body", "poll_response|%s" % ("SendPayload" if i == 0 else "SendErrorPayload"), ok, presp, e_,
+              "after the last chunk of a response body FINISHED is set (or a close was started) on every path: the keep-alive timer is armed only for KEEP_ALIVE | FINISHED", witness=presp.path_lines(wit))
